@@ -311,7 +311,19 @@ def rule_f(ctx):
     vals = [v]
     if isinstance(v, ast.Name):
       vals = [val for _, val in D.reaching_defs(g, k, v.id) if val is not None] or [v]
+    # both arms of a conditional expression are answers
+    flat = []
     for val in vals:
+      stack = [val]
+      while stack:
+        x = stack.pop()
+        if isinstance(x, ast.IfExp):
+          stack += [x.body, x.orelse]
+        elif isinstance(x, ast.BoolOp):
+          stack += list(x.values)
+        else:
+          flat.append(x)
+    for val in flat:
       t = A.unparse(val)
       if not (t.startswith('self.children[') or '_decision_by_id' in t or 'named_decisions' in t):
         problems.append(f'line {k.lineno}: returns `{t}`, which is not read from the children / id / name tables')
